@@ -27,6 +27,11 @@ def scenarios(seed, tier, failed):
     rnd = random.Random(seed + 26)
     yield {'kind': 'roundtrip', 'name': 'ENTRY_SIGNAL', 'payload': None}
     yield {'kind': 'roundtrip', 'name': 'C26_NEW', 'payload': {'a': [1, 2, {'b': None}]}}
+    # falsy payloads, and names that are also attributes of the registry object or of dicts
+    for pl in (0, 0.0, False, '', [], {}):
+        yield {'kind': 'roundtrip', 'name': 'C26_FALSY', 'payload': pl}
+    for nm in ('highest_inner_signal', 'keys', 'append', 'name_for_signal', 'items', 'signal', 'payload', '__class__'):
+        yield {'kind': 'roundtrip', 'name': nm, 'payload': [1]}
     for i in range(300 if tier == 'quick' else 20000):
         yield {'kind': 'roundtrip', 'name': 'C26_%s' % rnd.choice(['A', 'B', 'x y', 'été', 'n%d' % i]),
                'payload': gen(rnd)}
@@ -36,10 +41,13 @@ def run(sc):
     from miros.event import Event, signals
     assert json.loads(json.dumps(sc['payload'])) == sc['payload'], 'json contract'
     e = Event(signal=sc['name'], payload=sc['payload'])
-    r = Event.loads(Event.dumps(e))
+    try:
+        r = Event.loads(Event.dumps(e))
+    except Exception as ex:
+        return False, 'round trip of %r raised %r' % (sc['name'], ex), 'roundtrip'
     if r.signal_name != sc['name']:
         return False, 'signal name %r came back as %r' % (sc['name'], r.signal_name), 'roundtrip'
-    if r.payload != sc['payload']:
+    if r.payload != sc['payload'] or type(r.payload) is not type(sc['payload']):
         return False, 'payload %r came back as %r' % (sc['payload'], r.payload), 'roundtrip'
     if r.signal != signals[sc['name']]:
         return False, 'number %r is not the one bound to %r here (%r)' % (r.signal, sc['name'], signals[sc['name']]), 'roundtrip'
